@@ -113,6 +113,7 @@ class ObsSession:
             d["state"] = None
             w = gridw.RealWorld(d)
             ob = _CTORS[key](dict(grid=w.grid, agents=w.agents))
+            w.finish()
             earlier = self.wdesc.get("earlier")
             if earlier is not None:
                 # a history: the same observer object has already observed, for every agent, an earlier
@@ -549,6 +550,7 @@ class ObsProp(core.Prop):
             order = list(range(len(wdesc["agents"])))
             rng.shuffle(order)
             wdesc["place_order"] = order
+            gridw.maybe_enc0(rng, wdesc, 0.08)
             for ag, s in zip(wdesc["agents"], wdesc["state"]):      # legal vitals: ammo <= initial ammo
                 s["ammo"] = min(s["ammo"], ag["init_ammo"]) if ag["has_ammo"] else 0
             watchers = [i for i, ag in enumerate(wdesc["agents"]) if ag.get("observing")]
